@@ -1,0 +1,19 @@
+//go:build verif
+// +build verif
+
+package cpu
+
+import (
+	"os"
+	"strconv"
+)
+
+// Verification hook: FASTGO_VERIF_ARCHLEVEL lowers the acceleration level
+// selected at start-up (it can never raise it above what the CPU supports).
+func init() {
+	if s := os.Getenv("FASTGO_VERIF_ARCHLEVEL"); s != "" {
+		if v, err := strconv.Atoi(s); err == nil && v >= 0 && v < ArchLevel {
+			ArchLevel = v
+		}
+	}
+}
